@@ -50,6 +50,7 @@ fn token_of(t: u8) -> Vec<u8> {
 }
 
 const P3: &str = "/t"; // leading empty segment: differs from P1 only by it
+const P4: &str = "t/"; // trailing empty segment
 
 fn actions(mode: u8) -> Vec<Act> {
     // mode 0: 2 endpoints x 2 tokens x 2 paths; 1: 3 endpoints x 3 tokens on ONE observed path; 2: 2 endpoints x
@@ -63,7 +64,7 @@ fn actions(mode: u8) -> Vec<Act> {
     };
     let paths: Vec<&'static str> = match mode {
         1 => vec![P1],
-        2 => vec![P1, P2, P3],
+        2 => vec![P1, P4, P3],
         _ => vec![P1, P2],
     };
     let mut a = Vec::new();
@@ -98,7 +99,7 @@ struct St {
 type Snap = BTreeMap<String, (u32, Vec<(u32, Vec<u8>, u64, Option<u16>)>)>;
 
 fn snapshot(s: &Subject<Ep>) -> Snap {
-    let mut paths: Vec<String> = vec![P1.into(), P2.into(), P3.into(), PNEVER.into()];
+    let mut paths: Vec<String> = vec![P1.into(), P2.into(), P3.into(), P4.into(), PNEVER.into()];
     for p in s.verif_resource_paths() {
         if !paths.contains(&p) {
             paths.push(p);
